@@ -596,6 +596,24 @@ def standin_read(tier, seed):
         texts.add('fragment a{ C labeled c1 {in ring of size %s} }' % big)
         texts.add('fragment a{ C labeled c1 {in >%s ring} }' % big)
         texts.add('fragment a{ C labeled c1 {has %s radical electrons} }' % big)
+    # bounded TIME: nested parentheses in a constraints block (a grammar that re-parses a sub-expression per nesting level doubles the work each level),
+    # unbalanced variants of the same, long flat chains
+    RC_ = 'rule r{reactant r1{C labeled c1 H labeled h1 single bond to c1} constraints{%s} break bond (c1,h1) increase number of radical (c1) increase number of radical (h1)}'
+    for depth in (6, 12, 18, 24, 40):
+        texts.add(RC_ % ('(' * depth + 'r1 is cyclic' + ')' * depth))
+        texts.add(RC_ % ('(' * depth + 'r1 is cyclic' + ')' * (depth - 1)))
+        texts.add(RC_ % ('(' * depth + 'r1 is cyclic && ' + '(' * depth + '! r1 is aromatic' + ')' * depth + ')' * depth))
+    texts.add(RC_ % ' && '.join(['r1 is cyclic'] * 60))
+    # reactants declared as duplicates of another one (names of one and of several letters), then edits on the duplicated labels
+    ONE_ = 'reactant r1{C labeled c1 H labeled h1 single bond to c1} '
+    for dupname in ('r2', 'b', 'second'):
+        DUP_ = 'reactant %s duplicates r1 (c1=>c2, h1=>h2) ' % dupname
+        for ed in ('form bond (c1,c2)', 'increase bond order (c2,h2) decrease bond order (c2,h2)', 'increase number of radical (c2) decrease number of radical (c2)',
+                   'increase formal charge (h2) decrease formal charge (h2)', 'modify number of radical (c2, 0)', 'modify atomtype (c2, C.)',
+                   'break bond (c2,h2) increase number of radical (c2) increase number of radical (h2)', 'break bond (c1,h2)', 'modify bond (c2,h2,double)', 'modify bond (h1,h2,single)'):
+            texts.add('rule R{' + ONE_ + DUP_ + ed + '}')
+    texts.add('rule R{' + ONE_ + 'reactant r2 duplicates r1 (c1=>c2) increase number of radical (c2)}')
+    texts.add('rule R{' + ONE_ + 'reactant r2 duplicates zz (c1=>c2, h1=>h2) increase number of radical (c2)}')
     # every reader-error path of the rule reader (labels in different reactants, bond that does not exist / does not match, radical count below zero, ...)
     R2 = 'rule r{ reactant a{ C labeled c1 C labeled c2 double bond to c1 } reactant b{ C labeled c3 H labeled h3 single bond to c3 } %s }'
     for ed in ('break bond (c1, c3)', 'form bond (c1, c3)', 'increase bond order (c1, c3)', 'decrease bond order (c1, c3)', 'break bond (c1, c2)', 'break single bond (c1, c2)',
